@@ -348,6 +348,7 @@ func runOpts(fields []string) (out string) {
 	var keys []keyed
 	seen := map[string]bool{}
 	var ropts []fox.RouteOption
+	var ownIDs []string // the route's own middleware, in registration order
 	if rs != "_" {
 		for _, o := range strings.Split(rs, ",") {
 			switch o[0] {
@@ -360,6 +361,11 @@ func runOpts(fields []string) (out string) {
 				ropts = append(ropts, fox.WithClientIPResolver(optResolver(k)))
 			case 'W':
 				ropts = append(ropts, fox.WithMiddleware(optMws(o[1:])...))
+				for _, id := range strings.Split(o[1:], "+") {
+					if v, _ := strconv.Atoi(id); v != 0 {
+						ownIDs = append(ownIDs, id)
+					}
+				}
 			case 'K':
 				kv := strings.SplitN(o[1:], "=", 2)
 				parts := strings.Split(kv[0], ".")
@@ -484,6 +490,32 @@ func runOpts(fields []string) (out string) {
 			got := itoa(int(cc.Scope())) + ":" + optIPID(ip, err)
 			if cc.Route() != rt || cc.Pattern() != rt.Pattern() || got != c0 {
 				oracle = append(oracle, fmt.Sprintf("Router.Lookup(%s) tsr=%v: context shows route %q and ClientIP %s, the route handler served by ServeHTTP saw %q and %s", hx(lp), ltsr, cc.Pattern(), got, rt.Pattern(), c0))
+			}
+			// Route.HandleMiddleware runs the route's OWN middleware only (whatever scope the router-wide ones were
+			// registered for: WithMiddleware, WithMiddlewareFor(RouteHandler|…), DefaultOptions), Route.Handle none
+			chainOf := func(run func()) string {
+				t.evs = nil
+				run()
+				var ids []string
+				for _, e := range t.evs {
+					if e[0] == 'e' || e[0] == 'c' {
+						ids = append(ids, e)
+					}
+				}
+				return strings.Join(ids, "+")
+			}
+			want := ""
+			for i, id := range ownIDs {
+				if i > 0 {
+					want += "+"
+				}
+				want += "e" + id
+			}
+			if hm := chainOf(func() { lr.HandleMiddleware(cc) }); hm != want {
+				oracle = append(oracle, fmt.Sprintf("Route.HandleMiddleware ran %q, the route's own middleware is %q", hm, want))
+			}
+			if hb := chainOf(func() { lr.Handle(cc) }); hb != "" {
+				oracle = append(oracle, fmt.Sprintf("Route.Handle ran middleware %q", hb))
 			}
 		}
 		cc.Close()
